@@ -54,6 +54,16 @@ def pair_monitor(run, case):
     c2 = {**{k: v for k, v in case.items() if k != "alt"}, **copy.deepcopy(alt)}
     run2 = WC.run_execution(c2)
     run.alt = run2
+
+    def caught(r):
+        return {o["path"] for o in r.obs if o["kind"] == "try" and o["out"] == "caught"}
+
+    if caught(run) != caught(run2):
+        # the two interruption patterns legitimately led the program down different paths (e.g. an at-most-once step
+        # that was interrupted in one of them fails there and its except-handler runs durable operations): positions
+        # are comparable only under the same control flow
+        run.control_flow_differs = True
+        return
     a, _ = identity_table(run)
     b, _ = identity_table(run2)
     for p in sorted(set(a) & set(b)):
@@ -89,6 +99,8 @@ def classes(run, case):
     out = []
     if r2 is not None and _order(run) != _order(r2):
         out.append("completion-order-differs")
+    if getattr(run, "control_flow_differs", False):
+        out.append("pair-skipped:except-handlers-taken-differ")
     return out
 
 
